@@ -1,4 +1,4 @@
-N = {"quick": 72, "thorough": 1200}
+N = {"quick": 60, "thorough": 1200}
 PROP = dict(
     id="C03",
     module="FV.C03.Props",
